@@ -37,7 +37,12 @@ def apply_op(fs, op, defs):
             return ("ret", fs.updatefilter(op["name"], op["newname"], d["conditions"], d["actions"], d["matchtype"]))
         if k == "replace":
             d = defs[op["def"]]
-            content = build_content(fs, d)
+            if fs.getfilter(op["name"]) is None:
+                # unknown name: nothing will be replaced; build the content
+                # without touching the set under test
+                content = build_content(new_set(), d)
+            else:
+                content = build_content(fs, d)
             return ("ret", fs.replacefilter(op["name"], content, op.get("newname"), op.get("description")))
         if k == "remove":
             return ("ret", fs.removefilter(op["name"]))
